@@ -420,11 +420,14 @@ def unit_vector(unit):
                 if v.fingerprint() != fp_fresh(v._underlying) or v.fingerprint() != fp0:
                     agg.violation(V(site, "fingerprint-wrong-after-failed-assignment", case, None, None, py))
                     continue
-                try:      # still writable (registry intact): a valid no-op write must succeed
+                try:      # still writable (registry intact): a valid no-op write must succeed ...
                     if n:
                         v[0] = v._underlying[0]
                 except Exception as e2:
                     agg.violation(V(site, "vector-unwritable-after-failed-assignment", dict(case, second=type(e2).__name__), None, None, py))
+                    continue
+                if obs(v) != before:      # ... and must write nothing but itself (no leftovers of the failed assignment)
+                    agg.violation(V(site, "failed-assignment-takes-effect-with-the-next-valid-one", dict(case, error=type(raised).__name__), before, obs(v), py))
                     continue
                 if not ok_to_fail:
                     agg.violation(V(site, "valid-assignment-refused-" + type(raised).__name__, case, exp, repr(raised)[:80], py))
